@@ -145,6 +145,20 @@ def main():
             continue
         obs.append({"n": ny * nx, "f": [int(v) for v in F.ravel()], "g": dense_ranks(G), "r": [int(v) for v in R.ravel()], "pn": pn, "pd": pd, "level": int(lvl), "K": int(K)})
         meta.append({"base": str(base), "kind": str(kind), "shape": [ny, nx], "three_d": threeD, "wind": wind, "meas": meas})
+    # ---- a footprint in SINGLE precision (what the solver returns by default) with a base field in double precision whose
+    # distinct values lie closer together than single precision resolves: the ranking is the base field's own
+    for rep in range(4):
+        ny_, nx_ = 9 + rep, 12
+        f32 = rng.integers(0, 9, size=(ny_, nx_)).astype(np.float32)
+        g64 = (1.0 + rng.permutation(ny_ * nx_) * 1e-10).reshape(ny_, nx_)
+        got = np.asarray(get_source_area(f32, g64), dtype=float)
+        want = np.array([[float(f32[g64 > g64[j_, i_]].sum()) for i_ in range(nx_)] for j_ in range(ny_)])
+        chk.case(("float32 footprint, close base values", rep))
+        if got.shape != want.shape or not np.array_equal(got, want):
+            nbad = int(np.sum(got != want)) if got.shape == want.shape else -1
+            chk.violation("a single-precision footprint with a double-precision base field whose values differ by 1e-10: %d of %d cells do not hold the sum of the footprint over the cells with strictly larger base value" % (nbad, want.size),
+                          {"kind": "float32_footprint", "shape": [ny_, nx_]}, klass={"check": "float32_footprint"})
+            break
     # ---- LARGE fields (far beyond the cells TLC enumerates; an implementation may sort / accumulate in blocks): the
     # definitions of SourceArea.tla evaluated by the harness - sum of f over cells with larger g (exact when g has no ties,
     # a band [lo, lo + sum of the tied cells] otherwise), fewest highest-valued cells reaching p of the total
